@@ -101,6 +101,124 @@ Inductive enc_flag_list : val -> list byte -> Prop :=
 (* ---------------------------------------------------------------- RFC 3501 7.4.2: FETCH data items
    msg-att-static / msg-att-dynamic as far as the round-trip theorems reach today (BODY, BODYSTRUCTURE, BODY[...]
    and X-GM-LABELS are covered by the differential checks only) *)
+(* ---------------------------------------------------------------- body structures (RFC 3501 9 `body`) *)
+Inductive enc_nstring_utf8 : val -> list byte -> Prop :=
+| nsu_nil w : enc_nil w -> enc_nstring_utf8 VNone w
+| nsu_some s w : enc_string s w -> utf8_valid s = true -> enc_nstring_utf8 (VSome (VBytes s)) w.
+
+(* body-fld-param = "(" string SP string *(SP string SP string) ")" / nil *)
+Inductive enc_param_pair : val -> list byte -> Prop :=
+| param_pair k wk v wv : enc_string k wk -> utf8_valid k = true -> enc_string v wv -> utf8_valid v = true ->
+    enc_param_pair (VTuple [VBytes k; VBytes v]) (wk ++ SPb ++ wv).
+Inductive enc_param_more : list val -> list byte -> Prop :=
+| param_more_nil : enc_param_more [] []
+| param_more_cons p w l ws : enc_param_pair p w -> enc_param_more l ws -> enc_param_more (p :: l) (SPb ++ w ++ ws).
+Inductive enc_body_param : val -> list byte -> Prop :=
+| bp_nil w : enc_nil w -> enc_body_param VNone w
+| bp_some p w l ws : enc_param_pair p w -> enc_param_more l ws -> enc_body_param (VSome (VList (p :: l))) ([40] ++ w ++ ws ++ [41]).
+
+(* body-fld-enc = (DQUOTE ("7BIT" / "8BIT" / "BINARY" / "BASE64" / "QUOTED-PRINTABLE") DQUOTE) / string.  Any other
+   string is reported verbatim; not covered here: a quoted string that merely starts with one of the five names *)
+Definition known_encodings : list (string * string) :=
+  [("7BIT", "ContentEncoding::SevenBit"); ("8BIT", "ContentEncoding::EightBit"); ("BINARY", "ContentEncoding::Binary");
+   ("BASE64", "ContentEncoding::Base64"); ("QUOTED-PRINTABLE", "ContentEncoding::QuotedPrintable")]%string.
+Inductive enc_body_enc : val -> list byte -> Prop :=
+| be_known K n k : In (K, n) known_encodings -> kw K k -> enc_body_enc (VCon n []) ([34] ++ k ++ [34])
+| be_other_quoted s : forallb rfc_QUOTED_PLAIN s = true -> utf8_valid s = true ->
+    forallb (fun Kn : string * string => nocase_mismatch (bs (fst Kn)) (s ++ [34])) known_encodings = true ->
+    enc_body_enc (VCon "ContentEncoding::Other" [VBytes s]) ([34] ++ s ++ [34])
+| be_other_literal s w : enc_literal s w -> utf8_valid s = true -> enc_body_enc (VCon "ContentEncoding::Other" [VBytes s]) w.
+
+(* body-fields = body-fld-param SP body-fld-id SP body-fld-desc SP body-fld-enc SP body-fld-octets *)
+Inductive enc_body_fields : val -> val -> val -> val -> N -> list byte -> Prop :=
+| bf_intro p wp id wi de wd e we n wn : enc_body_param p wp -> enc_nstring_utf8 id wi -> enc_nstring_utf8 de wd ->
+    enc_body_enc e we -> enc_number 32 n wn ->
+    enc_body_fields p id de e n (wp ++ SPb ++ wi ++ SPb ++ wd ++ SPb ++ we ++ SPb ++ wn).
+
+(* body-fld-dsp = "(" string SP body-fld-param ")" / nil *)
+Inductive enc_body_dsp : val -> list byte -> Prop :=
+| dsp_nil w : enc_nil w -> enc_body_dsp VNone w
+| dsp_some ty wty p wp : enc_string ty wty -> utf8_valid ty = true -> enc_body_param p wp ->
+    enc_body_dsp (VSome (VRec "ContentDisposition" [("ty"%string, VBytes ty); ("params"%string, p)])) ([40] ++ wty ++ SPb ++ wp ++ [41]).
+(* body-fld-lang = nstring / "(" string *(SP string) ")" *)
+Inductive enc_lang_more : list val -> list byte -> Prop :=
+| lang_more_nil : enc_lang_more [] []
+| lang_more_cons s w l ws : enc_string s w -> utf8_valid s = true -> enc_lang_more l ws -> enc_lang_more (VBytes s :: l) (SPb ++ w ++ ws).
+Inductive enc_body_lang : val -> list byte -> Prop :=
+| lang_nil w : enc_nil w -> enc_body_lang VNone w
+| lang_one s w : enc_string s w -> utf8_valid s = true -> enc_body_lang (VSome (VList [VBytes s])) w
+| lang_list s w l ws : enc_string s w -> utf8_valid s = true -> enc_lang_more l ws ->
+    enc_body_lang (VSome (VList (VBytes s :: l))) ([40] ++ w ++ ws ++ [41]).
+(* body-extension = nstring / number / "(" body-extension *(SP body-extension) ")"; nesting below 32 levels (the
+   parser refuses deeper ones) *)
+Inductive enc_body_ext : nat -> val -> list byte -> Prop :=
+| bx_num d n w : (d < 32)%nat -> enc_number 32 n w -> enc_body_ext d (VCon "BodyExtension::Num" [VNum n]) w
+| bx_str d v w : (d < 32)%nat -> enc_nstring_utf8 v w -> enc_body_ext d (VCon "BodyExtension::Str" [v]) w
+| bx_list d x w l ws : (d < 32)%nat -> enc_body_ext (S d) x w -> enc_body_exts (S d) l ws ->
+    enc_body_ext d (VCon "BodyExtension::List" [VList (x :: l)]) ([40] ++ w ++ ws ++ [41])
+with enc_body_exts : nat -> list val -> list byte -> Prop :=
+| bxs_nil d : enc_body_exts d [] []
+| bxs_cons d x w l ws : enc_body_ext d x w -> enc_body_exts d l ws -> enc_body_exts d (x :: l) (SPb ++ w ++ ws).
+
+(* body-ext-1part = body-fld-md5 [SP body-fld-dsp [SP body-fld-lang [SP body-fld-loc [SP body-extension]]]], each
+   preceded by SP; this parser reads at most one body-extension.  (md5, disposition, language, location, extension) *)
+Inductive enc_ext_tail : val -> val -> val -> val -> list byte -> Prop :=
+| xt_0 : enc_ext_tail VNone VNone VNone VNone []
+| xt_1 dsp w1 : enc_body_dsp dsp w1 -> enc_ext_tail dsp VNone VNone VNone (SPb ++ w1)
+| xt_2 dsp w1 lang w2 : enc_body_dsp dsp w1 -> enc_body_lang lang w2 -> enc_ext_tail dsp lang VNone VNone (SPb ++ w1 ++ SPb ++ w2)
+| xt_3 dsp w1 lang w2 loc w3 : enc_body_dsp dsp w1 -> enc_body_lang lang w2 -> enc_nstring_utf8 loc w3 ->
+    enc_ext_tail dsp lang loc VNone (SPb ++ w1 ++ SPb ++ w2 ++ SPb ++ w3)
+| xt_4 dsp w1 lang w2 loc w3 x w4 : enc_body_dsp dsp w1 -> enc_body_lang lang w2 -> enc_nstring_utf8 loc w3 -> enc_body_ext 0 x w4 ->
+    enc_ext_tail dsp lang loc (VSome x) (SPb ++ w1 ++ SPb ++ w2 ++ SPb ++ w3 ++ SPb ++ w4).
+Inductive enc_ext_1part : val -> val -> val -> val -> val -> list byte -> Prop :=
+| x1_none : enc_ext_1part VNone VNone VNone VNone VNone []
+| x1_some md5 w0 dsp lang loc ext wt : enc_nstring_utf8 md5 w0 -> enc_ext_tail dsp lang loc ext wt ->
+    enc_ext_1part md5 dsp lang loc ext (SPb ++ w0 ++ wt).
+Inductive enc_ext_mpart : val -> val -> val -> val -> val -> list byte -> Prop :=
+| xm_none : enc_ext_mpart VNone VNone VNone VNone VNone []
+| xm_some p w0 dsp lang loc ext wt : enc_body_param p w0 -> enc_ext_tail dsp lang loc ext wt ->
+    enc_ext_mpart p dsp lang loc ext (SPb ++ w0 ++ wt).
+
+Definition common_val (ty sub params dsp lang loc : val) : val :=
+  VRec "BodyContentCommon" [("ty"%string, VRec "ContentType" [("ty"%string, ty); ("subtype"%string, sub); ("params"%string, params)]);
+                            ("disposition"%string, dsp); ("language"%string, lang); ("location"%string, loc)].
+Definition single_val (id md5 : val) (octets : N) (de e : val) : val :=
+  VRec "BodyContentSinglePart" [("id"%string, id); ("md5"%string, md5); ("octets"%string, VNum octets);
+                                ("description"%string, de); ("transfer_encoding"%string, e)].
+
+(* body = "(" (body-type-1part / body-type-mpart) ")"; nesting below 32 levels *)
+Inductive enc_body : nat -> val -> list byte -> Prop :=
+| body_text d k sub wsub p id de e n wf lines wl md5 dsp lang loc ext wx : (d < 32)%nat -> kw """TEXT""" k ->
+    enc_string sub wsub -> utf8_valid sub = true -> enc_body_fields p id de e n wf -> enc_number 32 lines wl ->
+    enc_ext_1part md5 dsp lang loc ext wx ->
+    enc_body d (VRec "BodyStructure::Text" [("common"%string, common_val (VBytes (bs "TEXT")) (VBytes sub) p dsp lang loc);
+                                            ("other"%string, single_val id md5 n de e); ("lines"%string, VNum lines);
+                                            ("extension"%string, ext)])
+             ([40] ++ (k ++ SPb ++ wsub ++ SPb ++ wf ++ SPb ++ wl ++ wx) ++ [41])
+| body_message d k p id de e n wf env wenv b wb lines wl md5 dsp lang loc ext wx : (d < 32)%nat -> kw """MESSAGE"" ""RFC822""" k ->
+    enc_body_fields p id de e n wf -> enc_envelope env wenv -> enc_body (S d) b wb -> enc_number 32 lines wl ->
+    enc_ext_1part md5 dsp lang loc ext wx ->
+    enc_body d (VRec "BodyStructure::Message" [("common"%string, common_val (VBytes (bs "MESSAGE")) (VBytes (bs "RFC822")) p dsp lang loc);
+                                               ("other"%string, single_val id md5 n de e); ("envelope"%string, env); ("body"%string, b);
+                                               ("lines"%string, VNum lines); ("extension"%string, ext)])
+             ([40] ++ (k ++ SPb ++ wf ++ SPb ++ wenv ++ SPb ++ wb ++ SPb ++ wl ++ wx) ++ [41])
+| body_basic d ty wty sub wsub p id de e n wf md5 dsp lang loc ext wx : (d < 32)%nat -> enc_string ty wty -> utf8_valid ty = true ->
+    enc_string sub wsub -> utf8_valid sub = true ->
+    nocase_mismatch (bs """TEXT""") (wty ++ SPb ++ wsub) = true ->
+    nocase_mismatch (bs """MESSAGE"" ""RFC822""") (wty ++ SPb ++ wsub) = true ->
+    enc_body_fields p id de e n wf -> enc_ext_1part md5 dsp lang loc ext wx ->
+    enc_body d (VRec "BodyStructure::Basic" [("common"%string, common_val (VBytes ty) (VBytes sub) p dsp lang loc);
+                                             ("other"%string, single_val id md5 n de e); ("extension"%string, ext)])
+             ([40] ++ (wty ++ SPb ++ wsub ++ SPb ++ wf ++ wx) ++ [41])
+| body_multipart d b wb l wl sub wsub p dsp lang loc ext wx : (d < 32)%nat -> enc_body (S d) b wb -> enc_bodies (S d) l wl ->
+    enc_string sub wsub -> utf8_valid sub = true -> enc_ext_mpart p dsp lang loc ext wx ->
+    enc_body d (VRec "BodyStructure::Multipart" [("common"%string, common_val (VBytes (bs "MULTIPART")) (VBytes sub) p dsp lang loc);
+                                                 ("bodies"%string, VList (b :: l)); ("extension"%string, ext)])
+             ([40] ++ ((wb ++ wl) ++ SPb ++ wsub ++ wx) ++ [41])
+with enc_bodies : nat -> list val -> list byte -> Prop :=
+| bodies_nil d : enc_bodies d [] []
+| bodies_cons d b w l ws : enc_body d b w -> enc_bodies d l ws -> enc_bodies d (b :: l) (w ++ ws).
+
 (* X-GM-LABELS (Gmail IMAP extensions): "(" [label *(SP label)] ")", a label being an atom, a "\" atom (system label) or a
    quoted string *)
 Inductive enc_label : list byte -> list byte -> Prop :=
@@ -158,6 +276,8 @@ Inductive enc_msg_att : val -> list byte -> Prop :=
 | att_flags k v w : kw "FLAGS " k -> enc_flag_list v w -> enc_msg_att (VCon "AttributeValue::Flags" [v]) (k ++ w)
 | att_date k s w : kw "INTERNALDATE " k -> enc_string s w -> utf8_valid s = true ->     (* date-time is a quoted string; the text is returned as sent *)
     enc_msg_att (VCon "AttributeValue::InternalDate" [VBytes s]) (k ++ w)
+| att_bodystructure k b w : kw "BODYSTRUCTURE " k -> enc_body 0 b w -> enc_msg_att (VCon "AttributeValue::BodyStructure" [b]) (k ++ w)
+| att_body k b w : kw "BODY " k -> enc_body 0 b w -> enc_msg_att (VCon "AttributeValue::BodyStructure" [b]) (k ++ w)
 | att_labels k v w : kw "X-GM-LABELS " k -> enc_label_list v w -> enc_msg_att (VCon "AttributeValue::GmailLabels" [v]) (k ++ w)
 | att_body_section k sec wsec idx widx v w : kw "BODY" k -> enc_section sec wsec -> enc_origin idx widx -> enc_nstring v w ->
     enc_msg_att (VRec "AttributeValue::BodySection" [("section"%string, sec); ("index"%string, idx); ("data"%string, v)])
